@@ -2,14 +2,11 @@
 
 # claimed in DESIGN.md but whose unit is not built yet: listed under not_applicable until it is
 NOT_YET = {
-    'C01': 'parser units (PCORE/GRAM) under construction; the lexer part is decided under C14',
     'C02': 'SHORT unit under construction',
     'C03': 'SEMA unit under construction',
-    'C05': 'GRAM unit under construction',
     'C06': 'SEMA unit under construction',
     'C08': 'SEMA unit under construction',
     'C09': 'SEMA unit under construction',
-    'C12': 'PCORE/GRAM/SHORT units under construction',
     'C13': 'SEMA unit under construction',
 }
 
@@ -85,6 +82,41 @@ PROPS = {
         ],
         not_decided=['that the lexer sets each flag exactly when the lexeme is malformed (stage B contracts on number/strings)',
                      'parse_text_check_lex / analyze_source gates (SEMA unit)', 'recursive have_syntax_errors over included files'],
+        explanation='Verus.',
+    ),
+    'C01': dict(
+        units=['lex', 'parser'],
+        decided=[
+            'lexer: every loop decreases the remaining input, advance_token consumes >= 1 char unless at EOF, no arithmetic overflow, every debug_assert holds (all inputs <= 2^31-1 bytes)',
+            'token table and parser core: no index / shift / subtraction failure in Converter, LexedStr accessors, Input, TokenSet (kinds >= 128 are never members), Parser',
+            'grammar, every function and every token context: each assert!, p.bump(K), unreachable!, u8/u32/usize arithmetic is safe',
+            'grammar: every one of the 13 loops strictly decreases the number of remaining tokens on each back edge (=> work bounded by tokens x nesting)',
+        ],
+        not_decided=['termination of the mutual recursion of the grammar (exec_allows_no_decreases_clause is declared on recursive functions; counted in assumption_scan)',
+                     'marker / DropBomb discipline, event::process, TopEntryPoint::parse balance assertions, Builder, rowan tree construction, validation.rs (e.g. Literal::token().unwrap())',
+                     'Parser::nth step-limit assertion (unreachable once every loop and recursion makes progress; not proved)', 'native stack depth'],
+        explanation='Verus on the real lexer, token table, parser core and the whole grammar.',
+        assumptions=['source text <= 2^31 - 1 bytes', 'Input built by LexedStr::to_input: no EOF kind inside, jointness bits allocated (wf; established in the LEX unit chain lemma / SHORT unit)'],
+    ),
+    'C05': dict(
+        units=['parser'],
+        decided=[
+            'current_op returns, for the operator at the cursor, the binding power and associativity of the table bp_of, and that operator is the composite token actually present (so the following bump consumes exactly it)',
+            'outside the three recorded carve-outs bp_of orders the 19 binary operators exactly as the OpenQASM 3 table; all are left-associative; compound assignments are right-associative and lowest',
+        ],
+        not_decided=['that the Pratt loop builds the tree the table implies (functional correctness of expr_bp / precede)',
+                     'AST accessor roles (IfStmt, ForStmt, Gate, RangeExpr::start_step_stop, op_details ...): methods over rowan nodes'],
+        explanation='Verus: postcondition of current_op against a spec table + lemmas comparing the table with the specification order.',
+    ),
+    'C12': dict(
+        units=['lex', 'parser'],
+        decided=[
+            'lexical diagnostics: token index < number of tokens, ranges start[i]..start[i+1] ordered, in range, on token (= char) boundaries',
+            'an ERROR node is only ever completed after an error event has been recorded (precondition of Marker::complete at every call site of the grammar), recorded errors are never lost',
+        ],
+        not_decided=['parser diagnostic offsets through Builder (SHORT unit)', 'escape-validation offsets, ERROR *tokens* without a diagnostic (lexer Unknown -> ERROR kind)',
+                     'semantic diagnostic ranges (SemanticError::range is a rowan node range by construction: one-line accessor, not modelled)',
+                     '"a diagnostic-free parse contains no error node" as a whole-tree statement'],
         explanation='Verus.',
     ),
 }
